@@ -437,3 +437,136 @@ fn tr_external_case(listed: bool) {
 }
 ah!(c30_tr_external_listed, { tr_external_case(true) });
 ah!(c30_tr_external_unlisted, { tr_external_case(false) });
+
+// --- MINT / BURN in a contract context ------------------------------------------------------------
+// asset id = H(contract id ‖ sub id): `Hasher::{chain, finalize}` are replaced by a logging stand-in and the
+// specification computes the same digest from (contract, sub id) directly, so what is hashed and in which
+// order is part of the check.  In a native replay the stubs are inert and the real function is the oracle.
+static mut HLOG: [u8; 64] = [0; 64];
+static mut HLEN: usize = 0;
+pub(crate) fn chain_model<Bb: AsRef<[u8]>>(h: fuel_crypto::Hasher, data: Bb) -> fuel_crypto::Hasher {
+    let d = data.as_ref();
+    unsafe {
+        assert!(HLEN + d.len() <= 64, "hash log capacity");
+        let mut i = 0;
+        while i < d.len() { HLOG[HLEN + i] = d[i]; i += 1; }
+        HLEN += d.len();
+    }
+    h
+}
+fn toy_asset(contract: &[u8; 32], sub: &[u8; 32]) -> [u8; 32] {
+    let mut o = [0u8; 32];
+    let mut i = 0;
+    while i < 32 { o[i] = contract[i].rotate_left(3) ^ sub[i].wrapping_add(i as u8) ^ 0x5A; i += 1; }
+    o
+}
+pub(crate) fn finalize_model(_h: fuel_crypto::Hasher) -> fuel_types::Bytes32 {
+    unsafe {
+        assert!(HLEN == 64, "asset id hashes exactly contract id and sub id");
+        let mut c = [0u8; 32];
+        let mut s = [0u8; 32];
+        let mut i = 0;
+        while i < 32 { c[i] = HLOG[i]; s[i] = HLOG[32 + i]; i += 1; }
+        HLEN = 0;
+        fuel_types::Bytes32::new(toy_asset(&c, &s))
+    }
+}
+#[cfg(not(verif_playback))]
+fn expected_asset(contract: &ContractId, sub: &[u8; 32]) -> AssetId { AssetId::new(toy_asset(contract, sub)) }
+#[cfg(verif_playback)]
+fn expected_asset(contract: &ContractId, sub: &[u8; 32]) -> AssetId {
+    use fuel_tx::ContractIdExt;
+    contract.asset_id(&fuel_types::SubAssetId::new(*sub))
+}
+
+macro_rules! mh {
+    ($name:ident, $body:block) => {
+        #[kani::proof]
+        #[kani::unwind(140)]
+        #[kani::stub(crate::constraints::reg_key::split_registers, split_registers_model)]
+        #[kani::stub(core::result::Result::expect, expect_model)]
+        #[kani::stub(core::result::Result::unwrap, unwrap_model)]
+        #[kani::stub(fuel_merkle::binary::hash::leaf_sum, toy_leaf)]
+        #[kani::stub(fuel_merkle::binary::hash::node_sum, toy_node)]
+        #[kani::stub(fuel_crypto::Hasher::chain, chain_model)]
+        #[kani::stub(fuel_crypto::Hasher::finalize, finalize_model)]
+        pub fn $name() $body
+    };
+}
+
+fn mint_burn_case(mint: bool) {
+    // memory: [32,64) current contract id (SRC, at $fp), [64,96) sub id (symbolic)
+    let sub: [u8; 32] = kani::any();
+    let mut stack: Vec<u8> = Vec::with_capacity(LS);
+    let mut i = 0;
+    while i < LS {
+        let b = if i < 32 { 0 } else if i < 64 { SRC.as_ref()[i - 32] } else if i < 96 { sub[i - 64] } else { 0 };
+        stack.push(b);
+        i += 1;
+    }
+    let mem = MemoryInstance::verif_from_parts(stack, Vec::new(), MEM_SIZE);
+    let asset = expected_asset(&SRC, &sub);
+    let mut st = SlotStorage::new();
+    let bal: Option<Word> = if kani::any() { Some(kani::any()) } else { None };
+    if let Some(v) = bal { st.contract_asset_id_balance_insert(&SRC, &asset, v).unwrap(); }
+    let o1: Word = kani::any();
+    st.contract_asset_id_balance_insert(&OTHER, &ASSET, o1).unwrap();
+    let gas = any_gas_costs();
+    let (cost, per_byte) = (if mint { gas.mint } else { gas.burn }, gas.new_storage_per_byte);
+    let mut regs = any_registers();
+    assume_reg_inv(&regs);
+    kani::assume(regs[R_HP] == VM_MAX_RAM && regs[R_FP] == 32 && regs[R_SSP] >= 128 && regs[R_SP] <= LS as Word);
+    let amount: Word = kani::any();
+    regs[0x10] = amount; regs[0x11] = 64;
+    let probe: usize = kani::any();
+    kani::assume(probe < 64);
+    let mut vm = mk_vm_with(regs, mem, gas, st);
+    let internal: bool = kani::any();
+    vm.context = if internal { Context::Call { block_height: Default::default() } } else { Context::Script { block_height: Default::default() } };
+    unsafe { HLEN = 0; }
+    let res = if mint { op::MINT::new(rid(0x10), rid(0x11)).execute(&mut vm) } else { op::BURN::new(rid(0x10), rid(0x11)).execute(&mut vm) };
+    let b0 = bal.unwrap_or(0);
+    assert!(get(&vm.storage, &OTHER, &ASSET) == Some(o1), "bystander balances never change");
+    if let Some(mut exp) = charge(&regs, &vm.registers, &res, cost, probe) {
+        if !internal {
+            assert!(matches!(res, Err(RuntimeError::Recoverable(PanicReason::ExpectedInternalContext))));
+            assert!(get(&vm.storage, &SRC, &asset) == bal && vm.receipts.len() == 0);
+            kani::cover!(true, "minting / burning outside a contract refused");
+        } else if mint && (b0 as u128 + amount as u128) > u64::MAX as u128 {
+            assert!(matches!(res, Err(RuntimeError::Recoverable(PanicReason::BalanceOverflow))));
+            assert!(get(&vm.storage, &SRC, &asset) == bal, "overflow panics, the balance never wraps");
+            kani::cover!(true, "mint overflow refused");
+        } else if !mint && amount > b0 {
+            assert!(matches!(res, Err(RuntimeError::Recoverable(PanicReason::NotEnoughBalance))));
+            assert!(get(&vm.storage, &SRC, &asset) == bal, "deficit panics, the balance never wraps");
+            kani::cover!(true, "burning more than the balance refused");
+        } else {
+            let newb = if mint { b0 + amount } else { b0 - amount };
+            assert!(get(&vm.storage, &SRC, &asset) == Some(newb), "the contract's balance of H(contract, sub id) moves by exactly the amount");
+            let extra = if mint && bal.is_none() { 40u64.saturating_mul(per_byte) } else { 0 };
+            if extra > exp[R_CGAS] {
+                assert!(matches!(res, Err(RuntimeError::Recoverable(PanicReason::OutOfGas))));
+            } else {
+                assert!(matches!(res, Ok(ExecuteState::Proceed)));
+                exp[R_CGAS] -= extra; exp[R_GGAS] -= extra;
+                exp[R_PC] = regs[R_PC] + 4;
+                assert!(vm.registers[probe] == exp[probe]);
+                assert!(vm.receipts.len() == 1);
+                match &vm.receipts.as_ref()[0] {
+                    fuel_tx::Receipt::Mint { sub_id, contract_id, val, pc, is } if mint => {
+                        assert!(**sub_id == sub && *contract_id == SRC && *val == amount && *pc == regs[R_PC] && *is == regs[R_IS]);
+                    }
+                    fuel_tx::Receipt::Burn { sub_id, contract_id, val, pc, is } if !mint => {
+                        assert!(**sub_id == sub && *contract_id == SRC && *val == amount && *pc == regs[R_PC] && *is == regs[R_IS]);
+                    }
+                    _ => assert!(false, "mint / burn receipt expected"),
+                }
+                kani::cover!(mint && bal.is_none(), "mint creating the balance entry");
+                kani::cover!(!mint, "burn");
+            }
+        }
+    }
+    core::mem::forget(vm);
+}
+mh!(c27_mint, { mint_burn_case(true) });
+mh!(c27_burn, { mint_burn_case(false) });
